@@ -40,6 +40,12 @@ func zfn() int {
 func ifn2(a int, b string) int {
 	return a
 }
+func nbv {
+	print("nb")
+}
+func nbi int {
+	return 3
+}
 '''
 
 # (name, statement template with {X}, set of accepted offered types, where: "stmt" | "func:<header>")
@@ -103,6 +109,11 @@ POSITIONS = [
     ("call-zero-params-void", "vfn({X})", set()),
     ("call-zero-params-multi", "ivar, ivar = mfn({X})", set()),
     ("call-zero-params-two", "print(zfn({X}, {X}))", set()),
+    # functions defined WITHOUT a parameter list (round 10: C06-C, a nil parameter list switches the argument check off)
+    ("call-nobrackets-void", "nbv({X})", set()),
+    ("call-nobrackets-value", "print(nbi({X}))", set()),
+    ("call-nobrackets-two", "print(nbi({X}, {X}))", set()),
+    ("call-nobrackets-operand", "print(nbi() + {X})", {"int"}),
     ("if-cond", "if {X} {\n\tprint(1)\n}", {"bool"}),
     ("elif-cond", "if false {\n\tprint(1)\n} else if {X} {\n\tprint(2)\n}", {"bool"}),
     ("for-cond", "for {X} {\n\tbreak\n}", {"bool"}),
